@@ -15,7 +15,7 @@ pub struct Cell {
     pub idents: Vec<(String, usize)>,
     /// the combination is derivable from the IEC grammar (B.1.4.3, B.1.5.1-3)
     pub legal: bool,
-    /// contains an edge declaration inside a PROGRAM (KF-C01-03)
+    /// contains an edge declaration inside a PROGRAM (KF-C01-09)
     pub program_edge: bool,
 }
 
